@@ -215,20 +215,20 @@ Proof.
     apply IHcs. }
   destruct c; simpl.
   - repeat match goal with |- context [if ?x then _ else _] => destruct x end; try exact I.
-    destruct (fi_sub f1); try exact I. destruct (fi_sub f2); try exact I. apply IH.
+    destruct (fi_sub f1) as [[l1 s1]|]; try exact I. destruct (fi_sub f2) as [[l2 s2]|]; try exact I. apply IH.
   - apply Hseq.
-  - destruct (mem_str f0 (snd st)); [exact I|]. destruct (frag_ff s frs f0) as [[fm2 fns]|]; [|exact I].
-    exact (Hseq (CBetween me m fm2 :: map (CFieldsFrag me m) fns) (fst st, f0 :: snd st) false).
-  - specialize (IH (CFieldsFrag me m f0) (fst st, [])).
-    destruct (run f s frs (CFieldsFrag me m f0) (fst st, [])) as [[b st']| | |]; simpl in *; tauto.
-  - destruct (str_eqb f1 f2); [exact I|]. destruct (pair_cached (fst st) f1 f2 me); [exact I|].
+  - destruct (negb (existsb (qkey_match mid f0 me) (snd st))); [exact I|].
+    destruct (frag_ff s frs f0) as [[fm2 fns]|]; [|exact I].
+    exact (Hseq (CBetween me m fm2 :: map (CFieldsFrag me mid m) fns)
+                (fst st, filter (fun k => negb (qkey_match mid f0 me k)) (snd st)) false).
+  - destruct (str_eqb f1 f2); [exact I|]. destruct (negb (existsb (pkey_match f1 f2 me) (fst st))); [exact I|].
     destruct (frag_ff s frs f1) as [[fm1 fns1]|]; [|exact I].
     destruct (frag_ff s frs f2) as [[fm2 fns2]|]; [|exact I].
     exact (Hseq (CBetween me fm1 fm2 :: map (fun x => CFrags me x f2) fns1 ++ map (fun x => CFrags me f1 x) fns2)
-                ((f1, f2, me) :: fst st, snd st) false).
+                (filter (fun k => negb (pkey_match f1 f2 me k)) (fst st), snd st) false).
   - exact (Hseq (CBetween me (fst (fields_and_fragments s p1 s1)) (fst (fields_and_fragments s p2 s2))
-               :: map (CFieldsFragFresh me (fst (fields_and_fragments s p1 s1))) (snd (fields_and_fragments s p2 s2))
-               ++ map (CFieldsFragFresh me (fst (fields_and_fragments s p2 s2))) (snd (fields_and_fragments s p1 s1))
+               :: map (CFieldsFrag me l1 (fst (fields_and_fragments s p1 s1))) (snd (fields_and_fragments s p2 s2))
+               ++ map (CFieldsFrag me l2 (fst (fields_and_fragments s p2 s2))) (snd (fields_and_fragments s p1 s1))
                ++ map (fun p => CFrags me (fst p) (snd p))
                       (cross (snd (fields_and_fragments s p1 s1)) (snd (fields_and_fragments s p2 s2)))) st false).
 Qed.
@@ -240,14 +240,14 @@ Proof.
   destruct (run fuel s frs c st) as [r| | |]; simpl in *; try tauto. apply IH.
 Qed.
 
-Lemma overlap_events_benign fuel s frs : forall es cache, benign (overlap_events fuel s frs es cache).
+Lemma overlap_events_benign fuel s frs : forall es st, benign (overlap_events fuel s frs es st).
 Proof.
-  induction es as [|e es IH]; intros cache; simpl; [exact I|].
+  induction es as [|e es IH]; intros st; simpl; [exact I|].
   destruct e; try apply IH.
-  pose proof (run_list_benign s frs fuel (selset_calls s parent sels) (cache, []) false) as Hb.
-  destruct (run_list fuel s frs (selset_calls s parent sels) (cache, []) false) as [r| | |]; simpl in *; try tauto.
-  specialize (IH (fst (snd r))).
-  destruct (overlap_events fuel s frs es (fst (snd r))); simpl in *; tauto.
+  pose proof (run_list_benign s frs fuel (selset_calls s parent ssl sels) st false) as Hb.
+  destruct (run_list fuel s frs (selset_calls s parent ssl sels) st false) as [r| | |]; simpl in *; try tauto.
+  specialize (IH (snd r)).
+  destruct (overlap_events fuel s frs es (snd r)); simpl in *; tauto.
 Qed.
 
 Lemma ocat_benign {A B} (f : A -> outcome (list B)) (l : list A) :
